@@ -274,7 +274,7 @@ Section RunNP.
     Forall (fun ol => outcome_np (fst ol)) (run_ops cfg fuel idx ops rs).
   Proof.
     induction ops as [|o ops IH]; intros idx rs Hrs; cbn [run_ops]; [constructor|].
-    set (rs0 := mkRS (mkStore (st_bases (rs_store rs)) (st_handles (rs_store rs)) [] (st_fault (rs_store rs))) (rs_regs rs)).
+    set (rs0 := mkRS (mkStore (st_bases (rs_store rs)) (st_handles (rs_store rs)) [] (st_fault (rs_store rs)) (st_io (rs_store rs))) (rs_regs rs)).
     assert (H0 : rs_ok rs0) by exact Hrs.
     destruct (run_op_np idx o rs0 H0) as [H1 H2].
     destruct (run_op cfg fuel idx o rs0) as [rs' r]. cbn [fst snd] in *.
